@@ -4,6 +4,7 @@ PROP C02
 NAME insert-on-pool
 RULE R2.1
 WHY one line
+EXPECT pass          (optional: benign variant, the check must stay silent)
 FILE shovel/task.go
 <<<<
 old
@@ -29,6 +30,7 @@ for line in sys.stdin.read().split("\n"):
     elif line.startswith("NAME "): cur["name"] = line[5:].strip()
     elif line.startswith("RULE "): cur["rule"] = line[5:].strip()
     elif line.startswith("WHY "): cur["why"] = line[4:].strip()
+    elif line.startswith("EXPECT "): cur["expect"] = line[7:].strip()
     elif line.startswith("FILE "): f = line[5:].strip()
     elif line == "<<<<": mode = "old"; buf = []
 for m in muts:
